@@ -177,6 +177,18 @@ def _run(chk, E):
         kw = op.quad_ker((100, 100), 0, None).keywords
         chk.eq(f"C51.Lsv_is_log_of_scale_ratio[{modsv.value}]", kw["Lsv"], vnp.np_shim.log(op.mu2[1] / q1), fn="eko.evolution_operator:Operator.quad_ker", replay=rp,
                goal="Lsv == ln(final coupling scale / q2_to) == ln(xi^2)", assumptions=[xif2s > 0, q1 > 0, q0 > 0])
+    # the coupling range of one operator, xi != 1.  Exponentiated: the kernel solves d f / d ln mu^2 = -gamma'(a(xi^2 mu^2), L) f, so over [q2_from, q2_to] the coupling
+    # runs from a(xi^2 q2_from) to a(xi^2 q2_to) on EVERY stretch of the path, also those that end on a matching scale (else the product over a threshold crossing is off
+    # by O(a_s L), a leading-order effect).  Expanded: the path is evolved at xi = 1 and the factor K(a(xi^2 mu^2), L) closes it, so only the stretch that reaches the
+    # target ends at the shifted scale.
+    for modsv in (SVM.EXPONENTIATED, SVM.EXPANDED):
+        for thr in (False, True):
+            op = object.__new__(Operator)
+            op.config = dict(ModSV=modsv, xif2=xif2s, order=(2, 0), ev_op_iterations=2, ev_op_max_order=(2, 0), n3lo_ad_variation=(0,) * 7, polarized=False, time_like=False, use_fhmruvv=False, method="truncated")
+            op.q2_from, op.q2_to, op.is_threshold, op.order, op.nf = q0, q1, thr, (2, 0), 4
+            want = (xif2s * q0, xif2s * q1) if modsv is SVM.EXPONENTIATED else (q0, q1 if thr else xif2s * q1)
+            chk.eq_array(f"C51.coupling_range[{modsv.value},thr={thr}]", np.array(list(op.mu2), dtype=object), np.array(list(want), dtype=object), fn="eko.evolution_operator:Operator.mu2", replay=rp,
+                         goal="exponentiated: couplings from a(xi^2 q2_from) to a(xi^2 q2_to) on every stretch; expanded: from a(q2_from) to a(q2_to), the stretch that reaches the target ends at a(xi^2 q2_to)")
     # commons.couplings: with the exponentiated scheme the couplings are asked at xi^2 mu^2 for the patch of mu^2, so the matching ratios scale by xi^2
     from eko.runner import commons
     from eko.io.types import ScaleVariationsMethod as _SVM
